@@ -38,14 +38,13 @@
 //!
 //! Keys: `C03:<field class>:<verdict>` for field-level findings (field class = variant +
 //! field name, e.g. `Input::MessageCoinPredicate.predicateGasUsed`; verdict in
-//! {malleable-field-affects-id, committed-field-does-not-affect-id,
-//! witness-byte-affects-id} — the same key whether the formula (1) or the sweep (2)
+//! {malleable-field-affects-id, committed-field-does-not-affect-id} — the same key whether the formula (1) or the sweep (2)
 //! exposes it: when the formula fails, every single field class and every pair of field
 //! classes is tried with its malleability toggled to name the culprit) and
 //! `C03:<tx kind>:<class>` with
-//! class in {id-formula, witnesses-not-removed, chain-id-ignored, cached-id,
+//! class in {id-formula, chain-id-ignored, cached-id,
 //! id-after-precompute, precompute-not-idempotent, cached-id-after-re-precompute,
-//! encoding, panic}.
+//! encoding, panic}, and `C03:Chargeable:witnesses-not-removed` (formula or sweep).
 
 #[path = "../txcorpus.rs"]
 mod txcorpus;
@@ -212,7 +211,7 @@ fn diagnose(layout: &Layout, chain: u64, got: &[u8; 32], kind: &str) -> Vec<(Str
     }
     if &want_id(chain, &with_wit) == got {
         return vec![(
-            format!("C03:{kind}:witnesses-not-removed"),
+            "C03:Chargeable:witnesses-not-removed".to_string(),
             "the id is the hash of the zeroed encoding WITH the witnesses".into(),
         )]
     }
@@ -457,15 +456,18 @@ fn check_value(tx: &Transaction, descr: &str, case: &Value, sweep_chains: &[usiz
                     all_changed &= !same;
                     if same != expect_same {
                         let (verdict, text) = if f.in_witnesses {
-                            ("witness-byte-affects-id", "lies inside the witnesses, but the id changed")
+                            ("witnesses-not-removed", "lies inside the witnesses, but the id changed")
                         } else if f.malleable {
                             (V_MALLEABLE, "lies inside a malleable field, but the id changed")
                         } else {
                             (V_COMMITTED, "lies outside every malleable field and outside the witnesses, but the id did not change")
                         };
                         acc.outcome(&format!("VIOLATION_{verdict}"));
+                        // witnesses are removed by code shared by all chargeable kinds: one key
+                        let owner = if f.in_witnesses { "Chargeable" } else { f.class_path.as_str() };
+                        let verdict = if f.in_witnesses { "witnesses-not-removed" } else { verdict };
                         acc.viol(
-                            format!("C03:{}:{verdict}", f.class_path),
+                            format!("C03:{owner}:{verdict}"),
                             &|| format!(
                                 "byte {pos} (field {}, byte {} of it) flipped with {bit:#04x} {text} (chain {}): {} -> {}; {descr}",
                                 f.path,
@@ -622,7 +624,7 @@ fn explore(ctx: &Ctx) {
         let seg = 1u64 << 13;
         let mut done = 0u64;
         while done < n {
-            if ctx.out_of_time() || ctx.elapsed() > budget_s * 0.6 {
+            if ctx.out_of_time() || ctx.elapsed() > budget_s * 0.7 {
                 ctx.cap(format!("sub-product byte sweep cut short by the time budget after {done} of {n} transactions"));
                 break
             }
